@@ -595,6 +595,31 @@ Proof.
   exact (dmax_in _ _ _ Hm).
 Qed.
 
+(** every hand-written decoder, started (as dec_ty does) on the typed decoder one fuel unit
+    down: [m] bounds the depth of every type it may start the decoder on *)
+Theorem dec_custom_terminates_depth : forall S OPS ATTRS OBJS {R} (F : rawfmt R), fmt_total F ->
+  forall N m l f st d tag c, t_custom_dec d = true ->
+    callees S OPS ATTRS OBJS d = Some l -> dmax (ty_depth S OPS ATTRS OBJS N) l = Some m ->
+    (m + 1 + K_ELEM * csize c <= f)%nat ->
+    dec_custom_of S OPS ATTRS F (dec_ty S OPS ATTRS OBJS F f) (dec_opt S OPS ATTRS OBJS F f)
+      (dec_object S OPS ATTRS OBJS F f) (dec_fields F f) st d tag c <> OutOfFuel.
+Proof.
+  intros S OPS ATTRS OBJS R F HF N m l f st d tag c Hcd Hl Hm Hfuel. unfold K_ELEM in Hfuel.
+  unfold callees in Hl. rewrite Hcd in Hl. destruct (custom_types S d) as [l0|] eqn:El; [|discriminate].
+  injection Hl as <-.
+  destruct (dec_all_tr S OPS ATTRS OBJS F HF f) as (IHty & _ & _ & IHopt & IHobj).
+  eapply tr_neq.
+  apply (dec_custom_tr S OPS ATTRS OBJS F HF (dec_ty S OPS ATTRS OBJS F f) (dec_opt S OPS ATTRS OBJS F f)
+           (dec_object S OPS ATTRS OBJS F f) (dec_fields F f) (ty_depth S OPS ATTRS OBJS N) m (csize c)) with (l := l0).
+  - intros st0 t0 tag0 c0 (d0 & Hd0 & Hle) Hc0. eapply noinc_of_adv. apply (IHty N d0); [exact Hd0 | lia].
+  - intros st0 t0 tag0 c0 (d0 & Hd0 & Hle) Hc0. apply (IHopt N d0); [exact Hd0 | lia].
+  - intros st0 ot c0 Hob Hc0. apply (IHobj N m); [exact Hob | lia].
+  - intros c0 Hc0. eapply tr_impl; [|apply dec_fields_tr; [exact HF | lia]]. intros; exact I.
+  - exact El.
+  - intros t0 Ht0. exact (dmax_in _ _ _ Hm t0 Ht0).
+  - lia.
+Qed.
+
 (** the form asked for: a decidable acyclicity check on the schema, and [bound] as the static
     part.  (The safety check dec_safe_schema is NOT needed for this half: the panic points
     of the model are results.) *)
@@ -681,6 +706,19 @@ Proof.
   - unfold bin_cursor in E.
     pose proof (c_open_safe (fst (bin_forest (Datatypes.S (List.length bs)) bs)) (snd (bin_forest (Datatypes.S (List.length bs)) bs))) as Ho.
     rewrite E in Ho. destruct Ho.
+Qed.
+
+(** in bytes: 57 + 2 * (n / 8) <= 3000 as soon as n <= 11775 *)
+Theorem kmip_unmarshal_terminates_11k : forall root bs,
+  (root = "kmip.RequestMessage" \/ root = "kmip.ResponseMessage")%string ->
+  bytes_ok bs = true -> len bs <= 11775 ->
+  kmip_unmarshal root bs <> OutOfFuel.
+Proof.
+  intros root bs Hroot Hb Hlen. apply kmip_unmarshal_terminates; try assumption.
+  assert (H : (List.length bs / 8 <= Z.to_nat 1471)%nat).
+  { apply Nat2Z.inj_le. rewrite Nat2Z.inj_div. rewrite Z2Nat.id by lia. change (Z.of_nat 8) with 8.
+    unfold len in Hlen. apply Z.lt_succ_r. apply Z.div_lt_upper_bound; lia. }
+  unfold B_kmip, K_ELEM, FUEL. set (x := (List.length bs / 8)%nat) in *. lia.
 Qed.
 
 (** with kmip_unmarshal_never_panics: a value or an error *)
